@@ -32,7 +32,8 @@ class Job:
                  unwind=None, strcap=32, timeout=None, tier='quick', cname=None, may_throw=None, srcrel=None,
                  extra_cflags=(), cbmc_flags=(), no_checks=False, stubs=(), self_const=None, arity=None,
                  inline_select=None, object_bits=None, lemma=False, defines=(), variant_of=None, kf=None,
-                 description='', cases=None, case=None, replay_ghost=(), replay_domain=None, variants=None):
+                 description='', cases=None, case=None, replay_ghost=(), replay_domain=None, variants=None, unwindset=None):
+        self.unwindset = unwindset
         self.variants = variants   # list of (label, [defines]): the clause set is split over sub-jobs (same inputs)
         self.replay_domain = replay_domain
         self.replay_ghost = list(replay_ghost)
@@ -132,6 +133,38 @@ def build_tu(proj, job):
         cfi = T.funcinfo(proj, q, opt.get('cname'), real, opt.get('select'), opt.get('may_throw', False), opt.get('arity'))
         functable.setdefault(q, []).append(cfi)
         inline_infos.append((cfi, opt))
+    # small Math helpers are always inlined when the text mentions them (extracted by the same rules)
+    have = set(functable)
+    pending = [job.func] + [q for q in functable]
+    raw_texts = []
+    def mentions(q):
+        c, n = q.split('::')
+        try:
+            if c == cls or True:
+                fi0 = T.funcinfo(proj, q, None, real, (dict(_callee(sp)[1]).get('select') if False else None))
+        except Exception:
+            return ''
+        return ''
+    scan = [(_callee(sp)[0], _callee(sp)[1]) for sp in job.inline]
+    texts = [T.raw_def_text(proj, job.func, job.select, job.srcrel)]
+    for q, opt in scan:
+        texts.append(T.raw_def_text(proj, q, opt.get('select'), opt.get('srcrel')))
+    changed = True
+    while changed:
+        changed = False
+        for h in AUTO_INLINE:
+            if h in functable:
+                continue
+            short = h.split('::')[1]
+            if any(re.search(r'\b(?:Math::)?%s\s*(?:<[^>]*>)?\s*\(' % short, t) for t in texts if t):
+                opt = dict(AUTO_INLINE[h])
+                cfi = T.funcinfo(proj, h, opt.get('cname'), real, opt.get('select'), False, opt.get('arity'))
+                functable.setdefault(h, []).append(cfi)
+                inline_infos.insert(0, (cfi, opt))
+                texts.append(T.raw_def_text(proj, h, opt.get('select'), opt.get('srcrel')))
+                changed = True
+    # order helpers so that callees come before callers
+    inline_infos.sort(key=lambda t: AUTO_ORDER.index(t[0].qualname) if t[0].qualname in AUTO_ORDER else 99)
     # the function itself (recursion / overload siblings are not in the table unless listed)
     contract = T.Contract(T.contract_path(job.name if job.lemma else fi.cname))
     parts = [PRELUDE % dict(strcap=job.strcap)]
@@ -211,6 +244,14 @@ def run_cmd(cmd, timeout, cwd=None, stdout_path=None):
         return 'timeout', '', '', time.time() - t0
 
 
+# loops of the shim's own helper functions (bounded by the literal / alphabet lengths, not by the job's --unwind)
+SHIM_UNWIND = {'verif_strlen.0': 44, 'verif_strchr.0': 44, 'verif_index_of.0': 44, 'vstr_set.0': 16, 'vstr_in_set_.0': 16}
+
+# Math helpers that are inlined (their extracted bodies become part of the verified TU) whenever mentioned
+AUTO_INLINE = {'Math::pi': {}, 'Math::degree': {}, 'Math::NaN': {}, 'Math::infinity': {}, 'Math::sq': {}, 'Math::LatFix': {},
+               'Math::norm': {}, 'Math::polyval': {}}
+AUTO_ORDER = ['Math::pi', 'Math::degree', 'Math::NaN', 'Math::infinity', 'Math::sq', 'Math::LatFix', 'Math::norm', 'Math::polyval']
+
 CHECK_FLAGS = ['--bounds-check', '--pointer-check', '--signed-overflow-check', '--conversion-check',
                '--div-by-zero-check', '--undefined-shift-check']
 
@@ -271,8 +312,12 @@ def run_job(proj, job, workdir, tier='quick', seed=0, only_property=None):
     cmd = ['cbmc', b_gb] + ([] if job.no_checks else CHECK_FLAGS) + ['--json-ui', '--trace']
     if job.unwind:
         cmd += ['--unwind', str(job.unwind), '--unwinding-assertions']
-    if job.object_bits:
-        cmd += ['--object-bits', str(job.object_bits)]
+        us = dict(SHIM_UNWIND)
+        us['vstr_copy_in.0'] = job.strcap + 1
+        us['vstr_find_first_not_of.0'] = job.strcap + 1
+        us.update(getattr(job, 'unwindset', None) or {})
+        cmd += ['--unwindset', ','.join('%s:%d' % kv for kv in sorted(us.items()))]
+    cmd += ['--object-bits', str(job.object_bits or 12)]
     cmd += job.cbmc_flags
     if only_property:
         cmd += ['--property', only_property]
@@ -304,6 +349,7 @@ def run_job(proj, job, workdir, tier='quick', seed=0, only_property=None):
     res['warnings'] = [m for m in msgs if 'ignoring' in m or 'no body' in m][:20]
     contract = b['contract']
     canary_ok = False
+    infra = []
     for r in results:
         loc = r.get('sourceLocation', {})
         f = loc.get('file', '')
@@ -322,6 +368,10 @@ def run_job(proj, job, workdir, tier='quick', seed=0, only_property=None):
                 canary_ok = True
             res['obligations'].append(ob)
             continue
+        if r['status'] != 'SUCCESS' and (desc.startswith('unwinding assertion') or 'undefined function' in desc or desc.startswith('no body')):
+            infra.append('%s: %s (%s:%s)' % (ob['id'], desc, f, line))
+            res['obligations'].append(ob)
+            continue
         if r['status'] != 'SUCCESS':
             ob['trace_inputs'] = extract_inputs(r.get('trace', []), b['entry'])
             ob['trace_tail'] = trace_tail(r.get('trace', []))
@@ -331,7 +381,11 @@ def run_job(proj, job, workdir, tier='quick', seed=0, only_property=None):
     n_real = [o for o in res['obligations'] if not o.get('canary')]
     res['n_obligations'] = len(n_real)
     res['n_discharged'] = sum(1 for o in n_real if o['status'] == 'SUCCESS')
-    if res['failures']:
+    if infra:
+        res['status'] = 'error'
+        res['diag'] = 'not a verdict -- the bound or the model is insufficient: ' + '; '.join(infra[:6])
+        res['failures'] = []
+    elif res['failures']:
         res['status'] = 'fail'
     elif not canary_ok:
         res['status'] = 'error'
